@@ -31,10 +31,7 @@ evaluated in 60-digit decimal arithmetic).  Conventions of `ℝ` apply to the de
 The second half of the identifiers (`kulczynski` … `vicis_wave_hedges`) is in `Props/C06b.lean`.
 -/
 import OpfVerif.Lemmas.GenLookup
-import Mathlib.Tactic.Ring
 import Mathlib.Tactic.NormNum
-import Mathlib.Tactic.FieldSimp
-import Mathlib.Tactic.Linarith
 namespace Opf
 open scoped BigOperators
 
@@ -60,14 +57,51 @@ theorem metricR_shift {n : Nat} {id f : String} {b : S} {x y : Fin n → ℝ}
   simp only [metricR, h1, h2, h3, h, c06_shifts.1, c06_shifts.2, if_true]
   rfl
 
-/-- resolve an undecorated identifier; leaves `body.evalR x y = closed form`. -/
-macro "c06_plain " f:str b:ident : tactic =>
-  `(tactic| refine metricR_plain (f := $f) (b := $b) (by decide) (by decide) (by decide) ?_)
+/-! ### evaluation rules of the expression language (the equations of `V.evalR`, `S.evalR`) -/
 
-/-- resolve a decorated identifier; leaves `∀ x y, body.evalR x y = closed form x y`. -/
-macro "c06_shift " cf:ident f:str b:ident : tactic =>
-  `(tactic| (refine metricR_shift $cf (f := $f) (b := $b) (by decide) (by decide) (by decide) ?_
-             intro x y))
+section EvalRules
+variable {n : Nat} (x y : Fin n → ℝ) (i : Fin n)
+
+@[simp] theorem V.evalR_x : V.evalR x y i .x = x i := rfl
+@[simp] theorem V.evalR_y : V.evalR x y i .y = y i := rfl
+@[simp] theorem V.evalR_lit (m e : Int) : V.evalR x y i (.lit m e) = litR m e := rfl
+@[simp] theorem V.evalR_add (a b : V) : V.evalR x y i (.add a b) = a.evalR x y i + b.evalR x y i := rfl
+@[simp] theorem V.evalR_sub (a b : V) : V.evalR x y i (.sub a b) = a.evalR x y i - b.evalR x y i := rfl
+@[simp] theorem V.evalR_mul (a b : V) : V.evalR x y i (.mul a b) = a.evalR x y i * b.evalR x y i := rfl
+@[simp] theorem V.evalR_div (a b : V) : V.evalR x y i (.div a b) = a.evalR x y i / b.evalR x y i := rfl
+@[simp] theorem V.evalR_sq (a : V) : V.evalR x y i (.sq a) = (a.evalR x y i) ^ 2 := rfl
+@[simp] theorem V.evalR_sqrt (a : V) : V.evalR x y i (.sqrt a) = Real.sqrt (a.evalR x y i) := rfl
+@[simp] theorem V.evalR_abs (a : V) : V.evalR x y i (.abs a) = |a.evalR x y i| := rfl
+@[simp] theorem V.evalR_log (a : V) : V.evalR x y i (.log a) = Real.log (a.evalR x y i) := rfl
+@[simp] theorem V.evalR_min (a b : V) :
+    V.evalR x y i (.min a b) = Min.min (a.evalR x y i) (b.evalR x y i) := rfl
+@[simp] theorem V.evalR_max (a b : V) :
+    V.evalR x y i (.max a b) = Max.max (a.evalR x y i) (b.evalR x y i) := rfl
+@[simp] theorem V.evalR_neInd (a b : V) :
+    V.evalR x y i (.neInd a b) = if a.evalR x y i ≠ b.evalR x y i then 1 else 0 := rfl
+@[simp] theorem V.evalR_iteGe0 (c a b : V) :
+    V.evalR x y i (.iteGe0 c a b)
+      = if 0 ≤ c.evalR x y i then a.evalR x y i else b.evalR x y i := rfl
+
+@[simp] theorem S.evalR_lit (m e : Int) : S.evalR x y (.lit m e) = litR m e := rfl
+@[simp] theorem S.evalR_len : S.evalR x y .len = (n : ℝ) := rfl
+@[simp] theorem S.evalR_sum (v : V) : S.evalR x y (.sum v) = ∑ i : Fin n, v.evalR x y i := rfl
+@[simp] theorem S.evalR_amax (v : V) : S.evalR x y (.amax v) = ⨆ i : Fin n, v.evalR x y i := rfl
+@[simp] theorem S.evalR_add (a b : S) : S.evalR x y (.add a b) = a.evalR x y + b.evalR x y := rfl
+@[simp] theorem S.evalR_sub (a b : S) : S.evalR x y (.sub a b) = a.evalR x y - b.evalR x y := rfl
+@[simp] theorem S.evalR_mul (a b : S) : S.evalR x y (.mul a b) = a.evalR x y * b.evalR x y := rfl
+@[simp] theorem S.evalR_div (a b : S) : S.evalR x y (.div a b) = a.evalR x y / b.evalR x y := rfl
+@[simp] theorem S.evalR_neg (a : S) : S.evalR x y (.neg a) = - a.evalR x y := rfl
+@[simp] theorem S.evalR_sq (a : S) : S.evalR x y (.sq a) = (a.evalR x y) ^ 2 := rfl
+@[simp] theorem S.evalR_sqrt (a : S) : S.evalR x y (.sqrt a) = Real.sqrt (a.evalR x y) := rfl
+@[simp] theorem S.evalR_log (a : S) : S.evalR x y (.log a) = Real.log (a.evalR x y) := rfl
+@[simp] theorem S.evalR_exp (a : S) : S.evalR x y (.exp a) = Real.exp (a.evalR x y) := rfl
+@[simp] theorem S.evalR_min (a b : S) : S.evalR x y (.min a b) =
+    Min.min (a.evalR x y) (b.evalR x y) := rfl
+@[simp] theorem S.evalR_max (a b : S) : S.evalR x y (.max a b) =
+    Max.max (a.evalR x y) (b.evalR x y) := rfl
+
+end EvalRules
 
 /-! ### the decimal literals occurring in the source -/
 
@@ -85,31 +119,71 @@ theorem sum_indicator_eq_card {n : Nat} (p : Fin n → Prop) {d1 d2 : DecidableP
   have : d1 = d2 := Subsingleton.elim _ _
   subst this; simp
 
+/-! ### tactics: resolve the identifier, then rewrite with the evaluation rules only -/
+
+/-- unfold the generated body `b` and the closed form `cf`, apply the evaluation rules of the
+expression language and the literal table — nothing else (no arithmetic normalisation): what is
+left, if anything, is the genuine difference in shape between source and textbook formula. -/
+macro "c06_eval " b:ident cf:ident : tactic =>
+  `(tactic| simp only [$b:ident, $cf:ident,
+      V.evalR_x, V.evalR_y, V.evalR_lit, V.evalR_add, V.evalR_sub, V.evalR_mul, V.evalR_div,
+      V.evalR_sq, V.evalR_sqrt, V.evalR_abs, V.evalR_log, V.evalR_min, V.evalR_max, V.evalR_neInd,
+      V.evalR_iteGe0, S.evalR_lit, S.evalR_len, S.evalR_sum, S.evalR_amax, S.evalR_add,
+      S.evalR_sub, S.evalR_mul, S.evalR_div, S.evalR_neg, S.evalR_sq, S.evalR_sqrt, S.evalR_log,
+      S.evalR_exp, S.evalR_min, S.evalR_max,
+      litR_zero, litR_one, litR_two, litR_neg_one, litR_half, litR_maxw])
+
+/-- resolve an undecorated identifier; leaves `body.evalR x y = closed form`, evaluated. -/
+macro "c06_plain " f:str b:ident cf:ident : tactic =>
+  `(tactic| (refine metricR_plain (f := $f) (b := $b) (by decide) (by decide) (by decide) ?_
+             c06_eval $b $cf))
+
+/-- resolve a decorated identifier; leaves `body.evalR x y = closed form x y` for arbitrary
+(already shifted) `x y`, evaluated. -/
+macro "c06_shift " f:str b:ident cf:ident : tactic =>
+  `(tactic| (refine metricR_shift $cf (f := $f) (b := $b) (by decide) (by decide) (by decide) ?_
+             intro x y
+             c06_eval $b $cf))
+
 /-! ### registry -/
 
 theorem c06_whitelist_card : Gen.whitelist.length = 47 ∧ Gen.whitelist.Nodup := by decide
 
-theorem c06_registry_nodup : (Gen.registry.map (·.1)).Nodup := by decide
+/-- the keys of the registry, in order, are the whitelist of the models. -/
+theorem registry_keys : Gen.registry.map (·.1) = Gen.whitelist := by decide
+
+/-- the functions named by the registry, in order, are those with a generated body. -/
+theorem registry_values : Gen.registry.map (·.2) = Gen.bodies.map (·.1) := by decide
+
+theorem c06_registry_nodup : (Gen.registry.map (·.1)).Nodup := by
+  rw [registry_keys]; exact c06_whitelist_card.2
 
 theorem c06_registry_eq : ∀ k, k ∈ Gen.whitelist ↔ k ∈ Gen.registry.map (·.1) := by
-  intro k
-  have h : Gen.registry.map (·.1) = Gen.whitelist := by decide
-  rw [h]
+  intro k; rw [registry_keys]
+
+/-- a key of an association list is found by `lookup`, with a value of the list. -/
+theorem lookup_of_mem_keys {α β : Type} [BEq α] [LawfulBEq α] (l : List (α × β)) (k : α)
+    (h : k ∈ l.map (·.1)) : ∃ v, l.lookup k = some v ∧ v ∈ l.map (·.2) := by
+  induction l with
+  | nil => simp at h
+  | cons p t ih =>
+    obtain ⟨a, b⟩ := p
+    by_cases hk : k = a
+    · subst hk; exact ⟨b, by simp [List.lookup], by simp⟩
+    · have hne : (k == a) = false := by simpa using hk
+      have ht : k ∈ t.map (·.1) := by
+        simp only [List.map_cons, List.mem_cons] at h
+        exact h.resolve_left hk
+      obtain ⟨v, hv, hm⟩ := ih ht
+      exact ⟨v, by simp [List.lookup, hne, hv], by simp [hm]⟩
 
 theorem c06_resolves : ∀ k, k ∈ Gen.whitelist → ∃ f b, metricFn k = some f ∧ fnBody f = some b := by
-  have h : ∀ k ∈ Gen.whitelist,
-      (match metricFn k with
-        | some f => (fnBody f).isSome
-        | none => false) = true := by decide
   intro k hk
-  have := h k hk
-  cases h1 : metricFn k with
-  | none => simp [h1] at this
-  | some f =>
-    simp only [h1] at this
-    cases h2 : fnBody f with
-    | none => simp [h2] at this
-    | some b => exact ⟨f, b, rfl, h2⟩
+  rw [← registry_keys] at hk
+  obtain ⟨f, hf, hmem⟩ := lookup_of_mem_keys Gen.registry k hk
+  rw [registry_values] at hmem
+  obtain ⟨b, hb, _⟩ := lookup_of_mem_keys Gen.bodies f hmem
+  exact ⟨f, b, hf, hb⟩
 
 theorem c06_lookup : Gen.distanceFnLookup = "d.DISTANCES[distance]" := by decide
 
@@ -117,7 +191,6 @@ theorem c06_lookup : Gen.distanceFnLookup = "d.DISTANCES[distance]" := by decide
 
 variable {n : Nat}
 
-/-- Cha (2007) eq. 44: additive symmetric χ². -/
 noncomputable def cf_additive_symmetric (x y : Fin n → ℝ) : ℝ :=
   2 * ∑ i, (x i - y i) ^ 2 * (x i + y i) / (x i * y i)
 
@@ -139,6 +212,7 @@ noncomputable def cf_chebyshev (x y : Fin n → ℝ) : ℝ :=
 noncomputable def cf_chi_squared (x y : Fin n → ℝ) : ℝ :=
   1 / 2 * ∑ i, (x i - y i) ^ 2 / (x i + y i)
 
+/-- the root is taken of `max 0 ·` (the library clamps the radicand). -/
 noncomputable def cf_chord (x y : Fin n → ℝ) : ℝ :=
   Real.sqrt (max 0
     (2 - 2 * (∑ i, x i * y i) / (Real.sqrt (∑ i, x i ^ 2) * Real.sqrt (∑ i, y i ^ 2))))
@@ -202,135 +276,114 @@ noncomputable def cf_k_divergence (x y : Fin n → ℝ) : ℝ :=
 theorem c06_additive_symmetric (x y : Fin n → ℝ) :
     metricR "additive_symmetric" x y
       = some (cf_additive_symmetric (fun i => x i + epsR) (fun i => y i + epsR)) := by
-  c06_shift cf_additive_symmetric "additive_symmetric_distance" Gen.body_additive_symmetric_distance
-  simp [S.evalR, V.evalR, Gen.body_additive_symmetric_distance, cf_additive_symmetric, litR_two]
+  c06_shift "additive_symmetric_distance" Gen.body_additive_symmetric_distance cf_additive_symmetric
 
 theorem c06_average_euclidean (x y : Fin n → ℝ) :
     metricR "average_euclidean" x y = some (cf_average_euclidean x y) := by
-  c06_plain "average_euclidean_distance" Gen.body_average_euclidean_distance
-  simp [S.evalR, V.evalR, Gen.body_average_euclidean_distance, cf_average_euclidean]
+  c06_plain "average_euclidean_distance" Gen.body_average_euclidean_distance cf_average_euclidean
 
 theorem c06_bhattacharyya (x y : Fin n → ℝ) :
     metricR "bhattacharyya" x y
       = some (cf_bhattacharyya (fun i => x i + epsR) (fun i => y i + epsR)) := by
-  c06_shift cf_bhattacharyya "bhattacharyya_distance" Gen.body_bhattacharyya_distance
-  simp [S.evalR, V.evalR, Gen.body_bhattacharyya_distance, cf_bhattacharyya]
+  c06_shift "bhattacharyya_distance" Gen.body_bhattacharyya_distance cf_bhattacharyya
 
 theorem c06_bray_curtis (x y : Fin n → ℝ) :
     metricR "bray_curtis" x y
       = some (cf_bray_curtis (fun i => x i + epsR) (fun i => y i + epsR)) := by
-  c06_shift cf_bray_curtis "bray_curtis_distance" Gen.body_bray_curtis_distance
-  simp [S.evalR, V.evalR, Gen.body_bray_curtis_distance, cf_bray_curtis]
+  c06_shift "bray_curtis_distance" Gen.body_bray_curtis_distance cf_bray_curtis
 
 theorem c06_canberra (x y : Fin n → ℝ) :
     metricR "canberra" x y
       = some (cf_canberra (fun i => x i + epsR) (fun i => y i + epsR)) := by
-  c06_shift cf_canberra "canberra_distance" Gen.body_canberra_distance
-  simp [S.evalR, V.evalR, Gen.body_canberra_distance, cf_canberra]
+  c06_shift "canberra_distance" Gen.body_canberra_distance cf_canberra
 
 theorem c06_chebyshev (x y : Fin n → ℝ) :
     metricR "chebyshev" x y = some (cf_chebyshev x y) := by
-  c06_plain "chebyshev_distance" Gen.body_chebyshev_distance
-  simp [S.evalR, V.evalR, Gen.body_chebyshev_distance, cf_chebyshev]
+  c06_plain "chebyshev_distance" Gen.body_chebyshev_distance cf_chebyshev
 
 theorem c06_chi_squared (x y : Fin n → ℝ) :
     metricR "chi_squared" x y
       = some (cf_chi_squared (fun i => x i + epsR) (fun i => y i + epsR)) := by
-  c06_shift cf_chi_squared "chi_squared_distance" Gen.body_chi_squared_distance
-  simp [S.evalR, V.evalR, Gen.body_chi_squared_distance, cf_chi_squared, litR_half]
+  c06_shift "chi_squared_distance" Gen.body_chi_squared_distance cf_chi_squared
 
 theorem c06_chord (x y : Fin n → ℝ) :
     metricR "chord" x y
       = some (cf_chord (fun i => x i + epsR) (fun i => y i + epsR)) := by
-  c06_shift cf_chord "chord_distance" Gen.body_chord_distance
-  simp only [S.evalR, V.evalR, Gen.body_chord_distance, cf_chord, litR_two, litR_zero]
+  c06_shift "chord_distance" Gen.body_chord_distance cf_chord
   rw [max_comm, mul_div_assoc]
 
 theorem c06_clark (x y : Fin n → ℝ) :
     metricR "clark" x y
       = some (cf_clark (fun i => x i + epsR) (fun i => y i + epsR)) := by
-  c06_shift cf_clark "clark_distance" Gen.body_clark_distance
-  simp [S.evalR, V.evalR, Gen.body_clark_distance, cf_clark]
+  c06_shift "clark_distance" Gen.body_clark_distance cf_clark
 
 theorem c06_cosine (x y : Fin n → ℝ) :
     metricR "cosine" x y
       = some (cf_cosine (fun i => x i + epsR) (fun i => y i + epsR)) := by
-  c06_shift cf_cosine "cosine_distance" Gen.body_cosine_distance
-  simp [S.evalR, V.evalR, Gen.body_cosine_distance, cf_cosine, litR_one]
+  c06_shift "cosine_distance" Gen.body_cosine_distance cf_cosine
 
 theorem c06_dice (x y : Fin n → ℝ) :
     metricR "dice" x y
       = some (cf_dice (fun i => x i + epsR) (fun i => y i + epsR)) := by
-  c06_shift cf_dice "dice_distance" Gen.body_dice_distance
-  simp [S.evalR, V.evalR, Gen.body_dice_distance, cf_dice, litR_one, litR_two]
+  c06_shift "dice_distance" Gen.body_dice_distance cf_dice
 
 theorem c06_divergence (x y : Fin n → ℝ) :
     metricR "divergence" x y
       = some (cf_divergence (fun i => x i + epsR) (fun i => y i + epsR)) := by
-  c06_shift cf_divergence "divergence_distance" Gen.body_divergence_distance
-  simp [S.evalR, V.evalR, Gen.body_divergence_distance, cf_divergence, litR_two]
+  c06_shift "divergence_distance" Gen.body_divergence_distance cf_divergence
 
 theorem c06_euclidean (x y : Fin n → ℝ) :
     metricR "euclidean" x y = some (cf_euclidean x y) := by
-  c06_plain "euclidean_distance" Gen.body_euclidean_distance
-  simp [S.evalR, V.evalR, Gen.body_euclidean_distance, cf_euclidean]
+  c06_plain "euclidean_distance" Gen.body_euclidean_distance cf_euclidean
 
 theorem c06_gaussian (x y : Fin n → ℝ) :
     metricR "gaussian" x y = some (cf_gaussian x y) := by
-  c06_plain "gaussian_distance" Gen.body_gaussian_distance
-  simp [S.evalR, V.evalR, Gen.body_gaussian_distance, cf_gaussian, litR_neg_one]
+  c06_plain "gaussian_distance" Gen.body_gaussian_distance cf_gaussian
+  rw [neg_one_mul]
 
 theorem c06_gower (x y : Fin n → ℝ) :
     metricR "gower" x y = some (cf_gower x y) := by
-  c06_plain "gower_distance" Gen.body_gower_distance
-  simp [S.evalR, V.evalR, Gen.body_gower_distance, cf_gower]
+  c06_plain "gower_distance" Gen.body_gower_distance cf_gower
 
 theorem c06_hamming (x y : Fin n → ℝ) :
     metricR "hamming" x y = some (cf_hamming x y) := by
-  c06_plain "hamming_distance" Gen.body_hamming_distance
-  simp only [S.evalR, V.evalR, Gen.body_hamming_distance, cf_hamming]
+  c06_plain "hamming_distance" Gen.body_hamming_distance cf_hamming
   exact sum_indicator_eq_card _
 
 theorem c06_hassanat (x y : Fin n → ℝ) :
     metricR "hassanat" x y
       = some (cf_hassanat (fun i => x i + epsR) (fun i => y i + epsR)) := by
-  c06_shift cf_hassanat "hassanat_distance" Gen.body_hassanat_distance
-  simp only [S.evalR, V.evalR, Gen.body_hassanat_distance, cf_hassanat, hassanatTerm, litR_one]
+  c06_shift "hassanat_distance" Gen.body_hassanat_distance cf_hassanat
+  simp only [hassanatTerm]
 
 theorem c06_hellinger (x y : Fin n → ℝ) :
     metricR "hellinger" x y = some (cf_hellinger x y) := by
-  c06_plain "hellinger_distance" Gen.body_hellinger_distance
-  simp only [S.evalR, V.evalR, Gen.body_hellinger_distance, cf_hellinger, litR_two]
+  c06_plain "hellinger_distance" Gen.body_hellinger_distance cf_hellinger
   rw [Finset.mul_sum]
 
 theorem c06_jaccard (x y : Fin n → ℝ) :
     metricR "jaccard" x y
       = some (cf_jaccard (fun i => x i + epsR) (fun i => y i + epsR)) := by
-  c06_shift cf_jaccard "jaccard_distance" Gen.body_jaccard_distance
-  simp [S.evalR, V.evalR, Gen.body_jaccard_distance, cf_jaccard]
+  c06_shift "jaccard_distance" Gen.body_jaccard_distance cf_jaccard
 
 theorem c06_jeffreys (x y : Fin n → ℝ) :
     metricR "jeffreys" x y
       = some (cf_jeffreys (fun i => x i + epsR) (fun i => y i + epsR)) := by
-  c06_shift cf_jeffreys "jeffreys_distance" Gen.body_jeffreys_distance
-  simp [S.evalR, V.evalR, Gen.body_jeffreys_distance, cf_jeffreys]
+  c06_shift "jeffreys_distance" Gen.body_jeffreys_distance cf_jeffreys
 
 theorem c06_jensen (x y : Fin n → ℝ) :
     metricR "jensen" x y
       = some (cf_jensen (fun i => x i + epsR) (fun i => y i + epsR)) := by
-  c06_shift cf_jensen "jensen_distance" Gen.body_jensen_distance
-  simp [S.evalR, V.evalR, Gen.body_jensen_distance, cf_jensen, litR_two, litR_half]
+  c06_shift "jensen_distance" Gen.body_jensen_distance cf_jensen
 
 theorem c06_jensen_shannon (x y : Fin n → ℝ) :
     metricR "jensen_shannon" x y
       = some (cf_jensen_shannon (fun i => x i + epsR) (fun i => y i + epsR)) := by
-  c06_shift cf_jensen_shannon "jensen_shannon_distance" Gen.body_jensen_shannon_distance
-  simp [S.evalR, V.evalR, Gen.body_jensen_shannon_distance, cf_jensen_shannon, litR_two, litR_half]
+  c06_shift "jensen_shannon_distance" Gen.body_jensen_shannon_distance cf_jensen_shannon
 
 theorem c06_k_divergence (x y : Fin n → ℝ) :
     metricR "k_divergence" x y
       = some (cf_k_divergence (fun i => x i + epsR) (fun i => y i + epsR)) := by
-  c06_shift cf_k_divergence "k_divergence_distance" Gen.body_k_divergence_distance
-  simp [S.evalR, V.evalR, Gen.body_k_divergence_distance, cf_k_divergence, litR_two]
+  c06_shift "k_divergence_distance" Gen.body_k_divergence_distance cf_k_divergence
 
 end Opf
